@@ -68,17 +68,21 @@ def run(tier):
                     acc.nontrivial += 1
     # ---- masters never get heavier
     for ev in THROWS:
-        for g in ('M', 'F'):
+      for g in ('M', 'F'):
+        # the library's own spelling 'V35', and other spellings of a masters band a caller may use: whatever such a family of labels is
+        # answered with, it must not get heavier with the band either (an unknown spelling is answered uniformly, which is fine)
+        for fam in ('V%02d', 'M%02d' if g == 'M' else 'W%02d', 'v%02d', 'V%d+', 'M%d' if g == 'M' else 'F%d'):
             prev = None
             for a in range(35, 135, 5):
-                label = 'V%02d' % a
+                label = fam % a
                 acc.n += 1
                 try:
                     w = giw(ev, g, label)
                     wk = float(w)
                 except Exception as e:
-                    acc.bad('masters-weight-undefined', dict(event=ev, gender=g, age_group=label), 'get_implement_weight returned/raised %r' % (e,))
-                    prev = None
+                    if fam == 'V%02d':
+                        acc.bad('masters-weight-undefined', dict(event=ev, gender=g, age_group=label), 'get_implement_weight returned/raised %r' % (e,))
+                    prev = None                 # another spelling need not be understood
                     continue
                 if prev is not None and wk > prev[1]:
                     acc.bad('masters-implement-gets-heavier', dict(event=ev, gender=g, age_group=label), '%s %s kg after %s %s kg' % (label, w, prev[0], prev[1]))
